@@ -986,27 +986,8 @@ func Run(tier, replay string) {
 	rep.Rule = "instruction configurations (kind x class x repetition counts x bundle shape x Arg wrapping) with at least one operand whose Operands() was compared with the Schema table; every (configuration, slot) written through; every terminator configuration's Succs() before and after a write; replace-all-uses experiments judged by TLC"
 	rng := rand.New(rand.NewSource(mbt.Seed()))
 
-	// (S) the design-level model
-	calls := map[string]string{}
-	if tier == "thorough" {
-		calls["MaxCalls"] = "4" // histories of four API calls (quick: three)
-	}
-	t := mbt.MustTLC(mbt.TLCOpts{Spec: "Operands", Cfg: "Operands.cfg", Consts: calls, Timeout: 15 * time.Minute})
-	if len(t.Violated) > 0 {
-		mbt.Infra("Operands.tla with AsImplemented=FALSE violates %v: specification error", t.Violated)
-	}
-	rep.AddTLC(t)
-	t.Cleanup()
-	for _, inv := range []string{"NoUseLeft", "SuccsLive", "Complete"} {
-		t := mbt.MustTLC(mbt.TLCOpts{Spec: "Operands", Cfg: "OperandsImpl_" + inv + ".cfg", Timeout: 10 * time.Minute})
-		if len(t.Violated) == 0 {
-			mbt.Infra("vacuity guard: Operands.tla with AsImplemented=TRUE does not violate %s", inv)
-		}
-		t.Cleanup()
-	}
-
 	// (G) the configurations
-	t = mbt.MustTLC(mbt.TLCOpts{Spec: "SchemaEnum", Cfg: "SchemaEnum.cfg", Workers: 1, Timeout: 10 * time.Minute})
+	t := mbt.MustTLC(mbt.TLCOpts{Spec: "SchemaEnum", Cfg: "SchemaEnum.cfg", Workers: 1, Timeout: 10 * time.Minute})
 	if len(t.Violated) > 0 {
 		mbt.Infra("SchemaEnum: table inconsistency %v", t.Violated)
 	}
@@ -1027,8 +1008,28 @@ func Run(tier, replay string) {
 		rep.Finish()
 	}
 
-	if int64(len(cases)) != t.Distinct-1-int64(len(tabs.Kinds)) {
-		mbt.Infra("cases.ndjson has %d rows for %d configuration states", len(cases), t.Distinct-1-int64(len(tabs.Kinds)))
+	// (S) the design-level model
+	calls := map[string]string{}
+	if tier == "thorough" {
+		calls["MaxCalls"] = "4" // histories of four API calls (quick: three)
+	}
+	nConfigStates := t.Distinct
+	t = mbt.MustTLC(mbt.TLCOpts{Spec: "Operands", Cfg: "Operands.cfg", Consts: calls, Timeout: 15 * time.Minute})
+	if len(t.Violated) > 0 {
+		mbt.Infra("Operands.tla with AsImplemented=FALSE violates %v: specification error", t.Violated)
+	}
+	rep.AddTLC(t)
+	t.Cleanup()
+	for _, inv := range []string{"NoUseLeft", "SuccsLive", "Complete"} {
+		t := mbt.MustTLC(mbt.TLCOpts{Spec: "Operands", Cfg: "OperandsImpl_" + inv + ".cfg", Timeout: 10 * time.Minute})
+		if len(t.Violated) == 0 {
+			mbt.Infra("vacuity guard: Operands.tla with AsImplemented=TRUE does not violate %s", inv)
+		}
+		t.Cleanup()
+	}
+
+	if int64(len(cases)) != nConfigStates-1-int64(len(tabs.Kinds)) {
+		mbt.Infra("cases.ndjson has %d rows for %d configuration states", len(cases), nConfigStates-1-int64(len(tabs.Kinds)))
 	}
 	kinds := map[string]bool{}
 	for _, c := range cases {
